@@ -19,6 +19,9 @@ if os.environ.get("PYTHONHASHSEED") is None:
     os.environ["PYTHONHASHSEED"] = "0"
     os.execv(sys.executable, [sys.executable] + sys.argv)
 
+# the one guarded hook in /repo (symbolic.py): conclusions of a node in insertion order instead of address order
+os.environ.setdefault("KRROOD_VERIF", "1")
+
 VERIF = os.path.dirname(os.path.dirname(os.path.abspath(__file__)))
 KRROOD_SRC = os.environ.get("KRROOD_SRC", "/repo/src")
 sys.path.insert(0, VERIF)
